@@ -66,6 +66,7 @@ class Ctx:
         self.work = os.path.join(VERIF, ".work", "%s-%d-%d" % (prop, os.getpid(), int(time.time() * 1000) % 100000))
         os.makedirs(self.work, exist_ok=True)
         self.t0 = time.time()
+        self.t_run = None
         self.evaluations = 0
         self.keys = set()
         self.samples = []
@@ -168,6 +169,11 @@ class Ctx:
         return len(fs) == len(qs) and all(self.close_to(f, q, scale) for f, q in zip(fs, qs))
 
     def elapsed(self):
+        """seconds spent on generated cases (setup - lake build, audits, kernel rebuild - is not counted, so the safety-net budgets of the
+        property modules do not depend on how warm the machine is)"""
+        return time.time() - (self.t_run or self.t0)
+
+    def wall(self):
         return time.time() - self.t0
 
     # ---- finish -----------------------------------------------------------------------------
@@ -221,13 +227,13 @@ class Ctx:
             known_finding_hits=dict(self.known_hits), mismatches=len(self.mismatches), notes=self.notes,
             driver_requests=(self.driver.n if self.driver else 0), **self.extra)
         ev = dict(property_id=self.prop, tier=self.tier, seed=self.seed, level=level, coverage=cov,
-                  assumptions=list(assumptions) or TRUSTED_BASE, wall_s=round(self.elapsed(), 2), violations=violations)
+                  assumptions=list(assumptions) or TRUSTED_BASE, wall_s=round(self.wall(), 2), violations=violations)
         os.makedirs(os.path.join(VERIF, "evidence"), exist_ok=True)
         json.dump(jsonable(ev), open(os.path.join(VERIF, "evidence", "%s.json" % self.prop), "w"), indent=1)
         for line in lines:
             print(line)
         print("%s tier=%s seed=%d evaluations=%d distinct_nontrivial=%d theorems=%d/%d mismatches=%d wall=%.1fs" % (
-            self.prop, self.tier, self.seed, self.evaluations, len(self.keys), discharged, n_obl, len(self.mismatches), self.elapsed()))
+            self.prop, self.tier, self.seed, self.evaluations, len(self.keys), discharged, n_obl, len(self.mismatches), self.wall()))
         return 1 if violations else 0
 
     def cleanup(self):
@@ -244,7 +250,7 @@ def run_sharded(ctx, prop, shards):
     for i in range(shards):
         out = os.path.join(ctx.work, "shard-%d.json" % i)
         env = dict(os.environ, VERIF_SHARD="%d/%d" % (i, shards), VERIF_SHARD_OUT=out, VERIF_SEED=str(ctx.seed))
-        procs.append((i, out, subprocess.Popen([sys.executable, os.path.abspath(__file__), prop, "--tier", "thorough"], env=env,
+        procs.append((i, out, subprocess.Popen([sys.executable, os.path.abspath(__file__), prop, "--tier", ctx.tier], env=env,
                                                stdout=subprocess.PIPE, stderr=subprocess.STDOUT, text=True)))
     level = explanation = rule = None
     failed = []
@@ -293,13 +299,16 @@ def main():
         print("REPLAY case=%s" % json.dumps(rp.get("case"))[:2000])
     ctx = Ctx(a.prop, tier, seed, a.replay)
     code = 2
-    shards = int(os.environ.get("VERIF_SHARDS", "8" if tier == "thorough" else "1"))
+    # the ADD path, the oracle, subprocess determinism and call histories are slow per case: their quick tier is sharded as well
+    slow = a.prop in ("C02", "C09", "C17", "C20")
+    shards = int(os.environ.get("VERIF_SHARDS", "8" if tier == "thorough" else ("4" if slow else "1")))
     try:
         ctx.setup_lean()
-        if tier == "thorough" and shards > 1 and not ctx.shard and not a.replay:
+        if shards > 1 and not ctx.shard and not a.replay:
             code = run_sharded(ctx, a.prop, shards)
         else:
             mod = importlib.import_module("props.%s" % a.prop.lower())
+            ctx.t_run = time.time()
             code = mod.run(ctx)
     except Exception:
         traceback.print_exc()
